@@ -13,7 +13,15 @@ for p in /verif/selftest/benign/*.patch; do
   (cd "$WT" && git checkout -q -- . && git apply "$p") || { echo "APPLY-FAIL $p"; continue; }
   for prop in $PROPS; do
     out=$(cd "$SNAP" && PT_REPO="$WT" ./check $prop 2>&1); rc=$?
-    if [ $rc -ne 0 ]; then fail=1; echo "FALSE-ALARM $(basename $p) $prop"; echo "$out" | grep -E "^  [RBI]" | cut -c1-260 | head -4; fi
+    if [ $rc -ne 0 ]; then
+      # alarms that are by design (an edit of the operand of a reviewed panic-capable site needs re-review) are listed,
+      # one fixed substring per line, in <patch>.expect; anything else is a false alarm
+      exp="${p%.patch}.expect"
+      lines=$(echo "$out" | grep -E "^  [RBI]")
+      if [ -f "$exp" ]; then rest=$(echo "$lines" | grep -v -F -f "$exp"); else rest="$lines"; fi
+      if [ -n "$rest" ]; then fail=1; echo "FALSE-ALARM $(basename $p) $prop"; echo "$rest" | cut -c1-260 | head -4;
+      else echo "by-design alarm $(basename $p) $prop: $(echo "$lines" | head -1 | cut -c1-160)"; fi
+    fi
   done
   echo "done $(basename $p)"
 done
